@@ -10,7 +10,7 @@ import (
 
 func init() {
 	register("C05",
-		"each relational operator applies the right predicate to the three-way decimal comparison (truth vector over Cmp's {-1,0,+1}), with operands in source order and by numeric value (Cmp, not a total-order or text comparison); strings use Go's byte-wise operator of the same name; both equalities are Cmp==0 / Go == per kind; `!=` and `!==` are the boolean negations of the very functions `==` and `===` return; `===` compares only behind an identical-dynamic-type gate, with null===null true and false as fall-through.",
+		"each relational operator applies the right predicate to the three-way decimal comparison (truth vector over Cmp's {-1,0,+1}), with operands in source order and by numeric value (Cmp, not a total-order or text comparison); strings use Go's byte-wise operator of the same name; both equalities are Cmp==0 / Go == per kind; `!=` and `!==` are the boolean negations of the very functions `==` and `===` return; `===` compares only behind an identical-dynamic-type gate, with null===null true and false as fall-through. On the string arm every return is that Go == (no numeric coercion of numeric-looking strings).",
 		"trichotomy and representation-independence as value laws of (*Big).Cmp itself, NaN cases, and the coercions of mixed-kind `==`.",
 		runC05)
 }
